@@ -433,7 +433,7 @@ func c47scenario(c *rig.Ctx, box *srvBox, i int, st *c47stats, label string) {
 		st.steps += 3
 		nsteps -= 2
 	}
-	for s := 0; s < nsteps && c.Violations() < 12; s++ {
+	for s := 0; s < nsteps && c.UnlistedViolations() < 12; s++ {
 		st.steps++
 		name := pool[r.Intn(len(pool))]
 		// bias towards meaningful steps
@@ -649,11 +649,11 @@ func c47(c *rig.Ctx) {
 	box := startBox(c, "c47")
 	disableStats(box)
 	n := c.Pick(24, 600)
-	for i := 0; i < n && c.Violations() < 12; i++ {
+	for i := 0; i < n && c.UnlistedViolations() < 12; i++ {
 		c47scenario(c, box, i, st, "plain")
 	}
 	// name mangling: directories with '-' / ' ' created while the switch is off, served under mangled names once it is on
-	if c.Violations() < 12 {
+	if c.UnlistedViolations() < 12 {
 		x := box.srv.MustOpen("mysql")
 		x.Exec("call dolt_stats_stop()")
 		r := c.SubRand("c47/mangle", 0)
@@ -703,10 +703,10 @@ func c47(c *rig.Ctx) {
 		c.Distinct("mangle")
 	}
 	box.close()
-	for i, n := 0, c.Pick(3, 60); i < n && c.Violations() < 12; i++ {
+	for i, n := 0, c.Pick(3, 60); i < n && c.UnlistedViolations() < 12; i++ {
 		c47root(c, i, st)
 	}
-	if c.Violations() < 12 {
+	if c.UnlistedViolations() < 12 {
 		c47withStatistics(c, st)
 	}
 	c.Count("c47.scenarios", st.scenarios)
